@@ -613,14 +613,19 @@ def get_optimal_reference_channel(
         )
     if eps is None:
         eps = np.finfo(w_mat.dtype).tiny
-    SNR = np.einsum(
+    target_power = np.einsum(
         '...FdR,...FdD,...FDR->...R', w_mat.conj(), target_psd_matrix, w_mat
-    ) / np.maximum(np.einsum(
+    )
+    noise_power = np.maximum(np.einsum(
         '...FdR,...FdD,...FDR->...R', w_mat.conj(), noise_psd_matrix, w_mat
     ), eps)
     # Raises an exception when np.inf and/or np.NaN was in target_psd_matrix
     # or noise_psd_matrix
-    assert np.all(np.isfinite(SNR)), SNR
+    assert np.all(np.isfinite(target_power)), target_power
+    assert np.all(np.isfinite(noise_power)), noise_power
+    # A filter without noise output (singular noise PSD) has an infinite SNR
+    with np.errstate(over='ignore'):
+        SNR = target_power / noise_power
     return np.argmax(SNR.real)
 
 
